@@ -5,7 +5,7 @@ COMPONENTS_SIM = {
               'guest code (scripted by the plan)', 'fault box (allocator / create / grant / lookup failures)'],
 }
 
-WORLDS = ['apptoken', 'mem']
+WORLDS = ['apptoken', 'mem', 'callback']
 
 PROPS = {
     'C15': dict(
@@ -59,4 +59,29 @@ PROPS.update({
                                'owner_destroyed_after_destroy_sandbox'],
                 assumptions=MEM_ASSUME + ['a second create after a failed backend create: the statement is silent, both outcomes are accepted',
                                           'frees/unregistrations "ignored" is judged at the backend boundary: no impl_free / impl_unregister call is made']),
+})
+
+CB_RULE = ('one run = one seeded history (<=60 ops) on 1-3 sandboxes of one backend (sim foreign-ABI stub with 2/4/64 callback entries; real noop; real dylib loading '
+           'two guest libraries) of register (70-function pool + void pool) / fill to capacity / unregister / destroy owner / move-construct / move-assign onto empty, live, '
+           'stale and self / destroy_sandbox with live owners / re-create, interleaved with guest calls of registered entries (1-3 calls each, nested '
+           'invoke->callback->invoke chains to depth 4 across sandboxes, hostile and unrepresentable return values, raw guest-chosen entry indices on the stub); '
+           'the reference model is the set of live registrations per sandbox incarnation; non-trivial = a fault fired or a reach probe hit; distinct = event-log hashes')
+CB_WORLD = dict(world='callback', variants=['plain', 'tls'], quick=dict(count=160000, time_limit=60), thorough=dict(count=8000000, time_limit=900))
+CB_COMPONENTS = dict(real_code=COMPONENTS_SIM['real_code'] + ['rlbox_noop_sandbox.hpp', 'rlbox_dylib_sandbox.hpp (dlopen of build/libguest{0,1}.so)'],
+                     stubs=COMPONENTS_SIM['stubs'] + ['guest C library sim/guestlib.c (real machine code, plays the sandboxed library for noop/dylib)'])
+CB_ASSUME = ['noop/dylib: reachability is judged through public behaviour only (is_unregistered, entry-point values, ability to re-register, what a guest call reaches); '
+             'on the stub the backend table is compared with the model directly',
+             'a vacant entry is only called on the stub (on noop/dylib it is a null function pointer call)',
+             'owners whose sandbox was destroyed keep is_unregistered()==false; the statement only requires that releasing them is harmless',
+             'both TLS configurations are built (library thread_local and RLBOX_EMBEDDER_PROVIDES_TLS_STATIC_VARIABLES)']
+PROPS.update({
+    'C12': dict(level='exploration', worlds=[CB_WORLD, MEM_WORLD], rule=CB_RULE, components=CB_COMPONENTS,
+                expect_probes=['nested_invoke_from_callback', 'nested_chain_crosses_sandboxes', 'callback_nesting_depth_3_or_more',
+                               'sixty_or_more_simultaneous_registrations', 'F9_unrepresentable_callback_result', 'sandbox_recreated'],
+                assumptions=CB_ASSUME),
+    'C13': dict(level='exploration', worlds=[CB_WORLD, MEM_WORLD], rule=CB_RULE, components=CB_COMPONENTS,
+                expect_probes=['move_assign_onto_live_owner', 'move_assign_involving_stale_owner', 'self_move_assign', 'owner_moved',
+                               'owner_released_after_destroy_sandbox', 'F7_capacity_exhausted', 'duplicate_registration_attempted',
+                               'guest_called_vacant_or_foreign_entry', 'F12_destroy_sandbox_with_live_owners'],
+                assumptions=CB_ASSUME),
 })
